@@ -193,3 +193,97 @@ func gatedLane(c *ev.Ctx, cf cfgT) {
 		c.Add("gated_schedules", 1)
 	}
 }
+
+// listPartsPaging: ListParts page chains over part numbers of different widths (1, 2, 9, 10, 11, 100, 1000, 10000):
+// following NextPartNumberMarker must yield every uploaded part exactly once, in ascending order, with its ETag and
+// size, at most max-parts per page. (Directory listings order such names as text: 1, 10, 100, 1000, 10000, 11, 2, 9.)
+func listPartsPaging(c *ev.Ctx, cf cfgT) {
+	id := "L/" + cf.name
+	if !c.Want(id) {
+		return
+	}
+	env, err := fx.New("c08l", gw.Config{NoOTmp: cf.noOTmp, Sidecar: cf.sidecar}, 1)
+	if err != nil {
+		c.Inconclusive("gateway start (list-parts lane): " + err.Error())
+		return
+	}
+	defer env.Close()
+	cl := env.Client(0)
+	const b = "paging"
+	if r := cl.CreateBucket(b); !r.OK() {
+		c.Inconclusive("create bucket: " + r.String())
+		return
+	}
+	for si, nums := range [][]int{{1, 2, 3, 4, 5, 6, 7, 8, 9, 10, 11, 12}, {1, 2, 9, 10, 11, 100, 1000, 10000}, {3, 20, 100, 101, 2000}} {
+		key := fmt.Sprintf("k-%d", si)
+		up, r := cl.CreateMPU(b, key)
+		if !r.OK() {
+			c.Inconclusive("create upload: " + r.String())
+			return
+		}
+		etag := map[int]string{}
+		size := map[int]int{}
+		for _, n := range nums {
+			body := bytes.Repeat([]byte{byte('a' + n%26)}, 10+n%97)
+			pr := cl.UploadPart(b, key, up, n, body)
+			if !pr.OK() {
+				c.Inconclusive(fmt.Sprintf("upload part %d: %s", n, pr))
+				return
+			}
+			etag[n] = strings.Trim(pr.Header.Get("Etag"), `"`)
+			size[n] = len(body)
+		}
+		for _, maxParts := range []int{1, 2, 3, 5, 7, 1000} {
+			var got []int
+			marker := ""
+			pages := 0
+			bad := ""
+			for {
+				kv := []string{"uploadId", up, "max-parts", fmt.Sprint(maxParts)}
+				if marker != "" {
+					kv = append(kv, "part-number-marker", marker)
+				}
+				lr := cl.Do(&s3c.Req{Method: "GET", Path: s3c.ObjPath(b, key), Query: s3c.Q(kv...)})
+				c.Eval(1)
+				if !lr.OK() {
+					bad = "ListParts answers " + lr.String()
+					break
+				}
+				var lp struct {
+					IsTruncated          bool
+					NextPartNumberMarker string
+					Part                 []struct {
+						PartNumber int
+						ETag       string
+						Size       int64
+					}
+				}
+				xml.Unmarshal(lr.Body, &lp)
+				if len(lp.Part) > maxParts {
+					bad = fmt.Sprintf("page of %d parts with max-parts=%d", len(lp.Part), maxParts)
+					break
+				}
+				for _, p := range lp.Part {
+					got = append(got, p.PartNumber)
+					if strings.Trim(p.ETag, `"`) != etag[p.PartNumber] || int(p.Size) != size[p.PartNumber] {
+						bad = fmt.Sprintf("part %d listed with ETag %s size %d, uploaded with %s size %d", p.PartNumber, p.ETag, p.Size, etag[p.PartNumber], size[p.PartNumber])
+					}
+				}
+				pages++
+				if !lp.IsTruncated || pages > len(nums)+3 {
+					break
+				}
+				marker = lp.NextPartNumberMarker
+			}
+			if bad == "" && fmt.Sprint(got) != fmt.Sprint(nums) {
+				bad = fmt.Sprintf("the page chain yields parts %v", got)
+			}
+			if bad != "" {
+				c.Violation("list-parts:page-chain:"+cf.store(), id, map[string]any{"uploaded_parts": nums, "max_parts": maxParts, "why": bad, "config": cf.name})
+			} else {
+				c.Distinct(fmt.Sprintf("L|%s|set%d|max-parts=%d", cf.name, si, maxParts))
+			}
+		}
+		cl.AbortMPU(b, key, up)
+	}
+}
